@@ -364,6 +364,49 @@ def brace_shapes(max_levels=3):
                         yield ('%s|%s|%s|%s' % ('-'.join(kinds) or 'flat', ''.join(map(str, braces)), inner, tail), src)
 
 
+# ------------------------------------------------------------------------------------------------ enumerated expression shapes
+def paren_shapes(per_program=10):
+    """Small complete C programs enumerating boolean / comparison expression shapes (operands: variables, comparisons, negations,
+    calls with one or two arguments that are themselves boolean expressions, comma expressions, conditionals, casts, subscripts)
+    in every statement context in which a parenthesis-inserting or -removing option acts (if / while / for condition, assignment,
+    initialiser, return, call argument): the shapes on which mod_full_paren_*_bool / mod_paren_on_return can change how an
+    expression groups.  Yields (name, source text); each program holds `per_program` statements, one per line."""
+    import itertools
+    atoms = ['a', 'b == 2', 'c < a', '!b', 'g(a, b)', 'g(1, b == 2 && c)', 'g(a || b, c != 1)', '(a, b)', 'a ? b : c', '(long)a', 'arr[b == 2]', '*p',
+             'a & 3', 'g(g(a, b == 1 || c), 2)']
+    forms = ['%s', '%s && %s', '%s || %s', '%s && %s || %s', '%s == %s && %s', '(%s || %s) && %s', '%s ? %s : %s', 'g(%s, %s)', 'g(%s, %s && %s)',
+             '!(%s && %s)', '%s != (%s || %s)', 'g(%s && %s, %s)']
+    ctxs = ['if (%s) c++;', 'c = %s;', 'return %s;', 'while (%s) { c++; break; }', 'c = g(%s, 1);', 'for (; %s; ) break;', 'int v = %s; c += v;',
+            'do c--; while (%s);', 'c += (%s) ? 1 : 2;']
+    exprs = []
+    k = 0
+    for f in forms:
+        n = f.count('%s')
+        # a covering choice of operand tuples: every atom in every position, neighbours rotated (not the full product)
+        for i in range(len(atoms)):
+            ops = tuple(atoms[(i + 5 * j + k) % len(atoms)] for j in range(n))
+            ops = tuple(('(%s)' % o) if (' ? ' in o and n > 1) else o for o in ops)      # a conditional operand keeps its own parentheses
+            exprs.append(f % ops)
+        k += 1
+    stmts = []
+    for j, e in enumerate(exprs):
+        for q in range(3):                      # three contexts per expression, rotating through all nine
+            stmts.append(ctxs[(j + 3 * q + j // len(ctxs)) % len(ctxs)] % e)
+    prog = 0
+    for at in range(0, len(stmts), per_program):
+        body = stmts[at:at + per_program]
+        lines = []
+        for t in body:
+            if t.startswith('return'):
+                t = 'if (c == %d) %s' % (len(lines) + 100, t)           # (keeps the following statements reachable)
+            elif t.startswith('int v'):
+                t = '{ ' + t + ' }'
+            lines.append('    ' + t)
+        src = 'extern int g(int, int);\nint f(int a, int b, int *p)\n{\n    int c = 0;\n    int arr[4] = { 1, 2 };\n%s\n    return c + arr[0];\n}\n' % '\n'.join(lines)
+        yield ('paren-shapes-%03d' % prog, src)
+        prog += 1
+
+
 # ------------------------------------------------------------------------------------------------ fixed programs
 class _FixedDraw:
     """stands in for Hypothesis' draw() so that a *fixed* program can be built from a constant (used for the option sweeps of the
